@@ -218,7 +218,7 @@ func runC05(r *vf.Run) {
 		return gen.MakeDataset(rng, "concat", gen.DatasetOpts{Rows: 400, Concat: true, WithUnique: true})
 	}})
 	lrng := r.RNG("case-list")
-	for i := 0; i < r.Pick(30, 150); i++ {
+	for i := 0; i < r.Pick(30, 600); i++ {
 		id := fmt.Sprintf("rnd%03d", i)
 		var n int
 		switch lrng.Intn(4) {
